@@ -5,6 +5,7 @@ import (
 	"runtime"
 	"strings"
 	"sync"
+	"sync/atomic"
 	"testing"
 	"time"
 
@@ -41,11 +42,14 @@ type Case struct {
 	Flushes   []int   `json:"flushes"`             // one flusher per element: number of Flush calls (override, all NIs)
 	FlushNI   string  `json:"flushni"`             // "all" or an instance name
 	FlushByID bool    `json:"flushbyid,omitempty"` // authorise the flushes with an election id instead of override
+	// Storm, when set, replaces the scripts: in round r every session announces
+	// (0, 8(r+1)+Storm[r][i]) at the same moment (released from a spin barrier).
+	Storm [][]int `json:"storm,omitempty"`
 }
 
 func setup() {
 	c := ev.C()
-	c.Rule = "concurrent workloads built with -race: 2-4 Modify sessions (negotiated one after the other, then run from real goroutines: ascending election ids from per-session disjoint sets with deliberate ties across sessions, batches over per-session disjoint keys with globally unique operation ids), 0-2 Get readers and 0-2 Flush callers running concurrently over in-process streams, GOMAXPROCS drawn from {2,4,16}, Gosched/microsleep perturbation at drawn points. Oracle: no race-detector report (GORACE log parsed by the driver; signature = the racing gribigo functions), no panic/fatal error (process death is reported by the driver), every goroutine finishes under the watchdog (hang attributed from the goroutine dump), and at quiescence: learnt election id == maximum announced, primary is a session that announced it, every operation has exactly one terminal result, and - when no Flush overlapped - Get(ALL) equals the union of the per-session folds of acknowledged operations. Non-trivial = >=2 sessions announced while the others were still running and >=1 Get or Flush overlapped a Modify (measured with step counters); distinct by FNV-64 of the case JSON."
+	c.Rule = "concurrent workloads built with -race: 2-4 Modify sessions (negotiated one after the other, then run from real goroutines: ascending election ids from per-session disjoint sets with deliberate ties across sessions, batches over per-session disjoint keys with globally unique operation ids), 0-2 Get readers and 0-2 Flush callers running concurrently over in-process streams, GOMAXPROCS drawn from {2,4,16}, Gosched/microsleep perturbation at drawn points; plus election storms: 20-60 rounds in which 2-4 sessions announce distinct ids at the same moment (spin barrier), checked after every round. Oracle: no race-detector report (GORACE log parsed by the driver; signature = the racing gribigo functions), no panic/fatal error (process death is reported by the driver), every goroutine finishes under the watchdog (hang attributed from the goroutine dump), and at quiescence: learnt election id == maximum announced, primary is a session that announced it, every operation has exactly one terminal result, and - when no Flush overlapped - Get(ALL) equals the union of the per-session folds of acknowledged operations. Non-trivial = >=2 sessions announced while the others were still running and >=1 Get or Flush overlapped a Modify (measured with step counters); distinct by FNV-64 of the case JSON."
 	c.Assumptions = []string{"the Go scheduler owns the interleaving: evidence is the race detector's happens-before analysis on the executions seen, not coverage of all schedules"}
 }
 
@@ -94,6 +98,13 @@ func runCase(c Case) *ev.Verdict {
 			}
 			return v
 		}
+	}
+	if len(c.Storm) > 0 {
+		runStorm(c, s, xs, v)
+		for _, x := range xs {
+			x.Close()
+		}
+		return v
 	}
 	res := make([]*sessResult, n)
 	var wg sync.WaitGroup
@@ -355,6 +366,83 @@ func runCase(c Case) *ev.Verdict {
 	return v
 }
 
+// runStorm makes all sessions announce distinct election ids at the same
+// moment, round after round on one server, and checks the election state once
+// every announcement of a round has been answered.
+func runStorm(c Case, s *drive.Srv, xs []*drive.Session, v *ev.Verdict) {
+	n := len(xs)
+	overlapped := 0
+	for r, perm := range c.Storm {
+		if len(perm) != n {
+			v.Inconclusive = "malformed storm case"
+			return
+		}
+		var ready, inflight, sawOverlap int32
+		var wg sync.WaitGroup
+		hangs := make([]*drive.Hang, n)
+		ended := make([]bool, n)
+		answers := make([][]*spb.ModifyResponse, n)
+		for i := range xs {
+			wg.Add(1)
+			go func(i int) {
+				defer wg.Done()
+				req := &spb.ModifyRequest{ElectionId: &spb.Uint128{Low: uint64(8*(r+1) + perm[i])}}
+				atomic.AddInt32(&ready, 1)
+				for atomic.LoadInt32(&ready) < int32(n) {
+				}
+				if atomic.AddInt32(&inflight, 1) > 1 {
+					atomic.StoreInt32(&sawOverlap, 1)
+				}
+				if _, hg := xs[i].Send(req); hg != nil {
+					hangs[i] = hg
+					return
+				}
+				rs, e, hg := xs[i].Barrier()
+				atomic.AddInt32(&inflight, -1)
+				hangs[i], ended[i], answers[i] = hg, e, rs
+			}(i)
+		}
+		wg.Wait()
+		for i := range xs {
+			if hangs[i] != nil {
+				l2.HangFinding(v, "C11", hangs[i])
+				return
+			}
+			if ended[i] {
+				v.Fail("C11/session-ended", "storm round %d: session %d ended with %v", r, i, xs[i].Err())
+				return
+			}
+			if len(answers[i]) != 1 || answers[i][0].GetElectionId() == nil {
+				v.Fail("C11/announcement-unanswered", "storm round %d: session %d received %v for its announcement", r, i, answers[i])
+				return
+			}
+		}
+		if sawOverlap == 1 {
+			overlapped++
+		}
+		maxLo, maxI := uint64(0), -1
+		for i := range xs {
+			if lo := uint64(8*(r+1) + perm[i]); lo > maxLo {
+				maxLo, maxI = lo, i
+			}
+		}
+		id, master := s.S.VerifElection()
+		if id == nil || id.GetHigh() != 0 || id.GetLow() != maxLo {
+			v.Fail("C11/election-id", "storm round %d (ids %v + %d announced together): at quiescence the learnt election id is %v, the maximum announced is %d", r, perm, 8*(r+1), id, maxLo)
+			return
+		}
+		if master != xs[maxI].CID {
+			v.Fail("C11/primary", "storm round %d (ids %v + %d announced together): at quiescence the primary is not the session that announced the maximum id %d", r, perm, 8*(r+1), maxLo)
+			return
+		}
+	}
+	v.Class("election-storm")
+	if overlapped > 0 {
+		v.Class("concurrent-announcements")
+	}
+	v.NonTrivial = overlapped > 0
+}
+
 func TestReplay(t *testing.T) {
 	setup()
 	for _, f := range ev.ReplayFiles() {
@@ -438,6 +526,18 @@ func drawCase(rt *rapid.T) Case {
 func TestCampaign(t *testing.T) {
 	setup()
 	col := ev.C()
+	t.Run("storm", func(t *testing.T) {
+		rapid.Check(t, func(rt *rapid.T) {
+			c := Case{Procs: []int{4, 16}[rapid.IntRange(0, 1).Draw(rt, "procs")]}
+			n := rapid.IntRange(2, 4).Draw(rt, "sessions")
+			c.Sessions = make([][]Act, n)
+			for r := rapid.IntRange(20, 60).Draw(rt, "rounds"); r > 0; r-- {
+				c.Storm = append(c.Storm, rapid.Permutation([]int{0, 1, 2, 3}[:n]).Draw(rt, "perm"))
+			}
+			v := runCase(c)
+			col.Check(rt, ev.JSON(c), v)
+		})
+	})
 	t.Run("random", func(t *testing.T) {
 		rapid.Check(t, func(rt *rapid.T) {
 			c := drawCase(rt)
